@@ -299,6 +299,13 @@ impl State {
                 }
             }
         }
+        // canonical order: once the signal is delivered its handler thread comes first (it runs as soon as it can),
+        // then main, then the workers; delivering the signal is the last alternative
+        if let Some(h) = self.threads.iter().position(|t| t.name == "handler") {
+            let (mut a, b): (Vec<_>, Vec<_>) = v.into_iter().partition(|e| e.0 == h);
+            a.extend(b);
+            v = a;
+        }
         if self.sig_enabled && self.sig == Sig::Armed && self.threads[0].status != Status::Finished {
             v.push((SIGTID, 0, "SIGINT".into()));
         }
@@ -469,6 +476,7 @@ impl State {
             }
             Op::LockAcq(name, write) => {
                 self.locks.push((*name, tid, *write));
+                self.events.push(format!("l{}:{}", tid, name));
                 0
             }
             Op::Point(name) => {
